@@ -35,6 +35,33 @@ def record(repo):
     return cache, False
 
 
+def validate_suite_pytrees(chk, pid):
+    """every outermost PyTree[...] check the repository's own tests perform, re-decided by TLC (Rows_JtPyTreeSuite)"""
+    repo = os.environ.get("VERIF_REPO", "/repo")
+    cache, cached = record(repo)
+    files = [f for f in glob.glob(os.path.join(cache, "*.ndjson.pt")) if os.path.getsize(f)]
+    if not files:
+        raise MachineryFailure("the repository's test-suite produced no recorded PyTree checks")
+    mism, total = validate_rows(chk, "Rows_JtPyTreeSuite", files, name="repo-test-suite-pytrees")
+    want = dict(mism)
+    unsupported, why = 0, {}
+    for f in files:
+        for line in open(f):
+            r = json.loads(line)
+            if r.get("unsupported"):
+                unsupported += 1
+                why[r.get("why", "?")[:50]] = why.get(r.get("why", "?")[:50], 0) + 1
+            if r["id"] in want:
+                chk.disagree(f"{pid}:suite-pytree:{r.get('test')}:{r.get('hint')}:res={r.get('res')}",
+                             {"row": r, "spec_expected": want[r["id"]]})
+    if total - unsupported < 100:
+        raise MachineryFailure(f"only {total - unsupported} PyTree checks of the repository's tests could be expressed in the specification")
+    chk.cov["traces_validated_against_impl"] += total - unsupported
+    chk.cov["evaluations"] += total
+    chk.part("repo_test_suite_pytrees", recorded_checks=total, outside_the_vocabulary=unsupported, reasons=why, recording_cached=cached)
+    return total
+
+
 def validate_suite(chk, pid):
     repo = os.environ.get("VERIF_REPO", "/repo")
     cache, cached = record(repo)
